@@ -127,9 +127,9 @@ PROPS["C10"] = {
 # the source translator's part of the tie: per property, the extra property file whose theorems state that the
 # Go functions translated on this run (coq/Gen/Src*.v, by tools/globalsgen srcgen.go) equal the model's functions
 SOURCE_TIE = {
-    "C01": ("C01_source", "identifier.Version"),
-    "C02": ("C02_source", "identifier.Kind"),
-    "C05": ("C05_source", "Header.Valid"),
+    "C01": ("C01_source", "jwt.Decode with loadClaims and parseHeaders (accepts exactly what the model's decode accepts, same kind and issuer), ClaimsData.verify, identifier.Version"),
+    "C02": ("C02_source", "the six typed decoders (each against the model's decode_typed), identifier.Kind"),
+    "C05": ("C05_source", "Header.Valid, parseHeaders, loadClaims"),
     "C06": ("C06_source", "Subject.countTokenWildcards, Subject.Validate, ServiceLatency.Validate, Export.Validate (with the Export kind / response-type predicates)"),
     "C07": ("C07_source", "ClaimsData.Validate (v2 and v1compat), the time checks every kind delegates to"),
     "C08": ("C08_source", "OperatorClaims.DidSign and AccountClaims.DidSign"),
